@@ -166,14 +166,31 @@ Definition section_append (sc : scall) : bool :=
   | _ => false
   end.
 
+(* class 6: the environment is a source, PREFIX_SUBCOMMAND names the subcommand that the command line then
+   chooses, and a default config file or the environment config of the parent has a NAME: section.
+   _load_env_vars copies the whole result of subparser.parse_env — the subcommand's DEFAULTS included — into the
+   environment namespace, after the environment config; merged over the default config files it resets every
+   key of the section to the subcommand's default (or variable). *)
+Definition below_name (nm : name) (d : doc) : bool := existsb (fun a => starts_with nm (fst a)) d.
+
+Definition envsub_resets (sc : scall) : bool :=
+  let c := s_parent sc in
+  let nm := s_name sc in
+  env_is_source c
+  && match s_envsub sc with Some v => name_eqb v nm | None => false end
+  && (existsb (below_name nm) (default_files c)
+      || match c_envcfg c with Some d => below_name nm d | None => false end).
+
 (* class 2: a call with a subcommand inside the modelled space and outside the finding classes: judged
    case by case against the documented fold (Spec flat_call); C04_sub_precedence_partial covers part of it *)
-Definition scall_class_fx (fixed_append fixed_section : bool) (sc : scall) : N :=
+Definition scall_class_fx (fixed_append fixed_section fixed_envsub : bool) (sc : scall) : N :=
   if negb (wf_scall sc) then 9%N
   else if envcfg_append (flat_call sc) then 1%N
   else if negb fixed_section && file_without_section sc then 4%N
+  else if negb fixed_envsub && envsub_resets sc then 6%N
   else if section_append sc then 5%N      (* stays a finding with the partial repair fx_append, see notes/C04.md *)
-  else if subenv_shadowed sc then 3%N
+  (* with the repair fx_envsub a subcommand named by PREFIX_SUBCOMMAND has its variables read in the parent's environment stage *)
+  else if subenv_shadowed sc && negb (fixed_envsub && envsub_resets sc) then 3%N
   else 2%N.
 
-Definition scall_class : scall -> N := scall_class_fx false false.
+Definition scall_class : scall -> N := scall_class_fx false false false.
